@@ -119,7 +119,11 @@ Prog == <<
   \* an existing name re-typed several times by a text that is then rejected / only compiled: its type is what it was
   BadTextD("X = \"x\"; X = 1.5; Z = ;", {"X"}), BadTextD("S = 1; S = tab(1, 1); S = 2.5; Z = ;", {"S"}),
   PGN(<<Let("X", Str("x")), Let("X", D(3)), Let("X", Call("tab", <<I(1), I(1)>>))>>, {"X"}, {}),
-  PGN(<<Let("S", I(1)), Let("S", D(5)), Let("S", Str("back"))>>, {"S"}, {})
+  PGN(<<Let("S", I(1)), Let("S", D(5)), Let("S", Str("back"))>>, {"S"}, {}),
+  \* the error in the second or a later link of a member chain (the links already built must be released, once)
+  BadText("Z = \"abc\".concat(\"d\").foo();", {}), BadText("W = tab(2, 0); Z = W.at(0).foo();", {}), BadText("W = tab(2, tab(1, 1)); W.at(0).concat(\"y\");", {}),
+  BadText("Z = \"abc\".concat(\"d\").at(1, 2);", {}), BadText("Z = \"abc\".concat(\"d\")@1;", {}), BadText("W = tab(2, tab(1, 1)); W.at(0).at(0).at(0);", {}),
+  BadText("Z = tup(1, \"a\")@2.concat(\"b\").concat(;", {}), BadText("W = tab(2, 0); print W.count().foo();", {})
 >>
 FuncNames == {"F()", "G()"}
 ProgText(p) == IF Prog[p].bad THEN Prog[p].text ELSE Render(Prog[p].ast)
@@ -145,7 +149,8 @@ Expr == <<
   BadX("tab(2, 1 +\n", {}),
   BadX("(1 + 2\n", {}),
   BadX("1 + * 2\n", {}),
-  BadX("str(\n", {})
+  BadX("str(\n", {}),
+  BadX("\"abc\".concat(\"d\").foo()\n", {}), BadX("\"abc\".concat(\"d\").at(1, 2)\n", {}), BadX("tab(2, tab(1, 1)).at(0).concat(\"y\")\n", {})
 >>
 ExprText(q) == IF Expr[q].bad THEN Expr[q].text ELSE RMin(Expr[q].e) \o "\n"
 
